@@ -70,7 +70,10 @@ class PrinzStep(Contract):
                     dict(name='new-value-solves-the-quadratic', using=['def:v', 'cut:discriminant-non-negative'], fact=L.implies(a != 0, a * v * v + b * v + c == 0)),
                     dict(name='new-value-non-negative', using=['def:v', 'cut:discriminant-non-negative', 'cut:leading-coefficient-non-negative', 'cut:constant-coefficient-non-positive'],
                          fact=L.implies(a != 0, v >= 0))]
-        return {'v#2': after_v}
+        def unchanged(L, V):
+            # the pair keeps its old value only when the quadratic degenerates (a = 0 exactly: two states without self-counts)
+            return [dict(name='pair-left-unchanged-only-for-the-degenerate-quadratic', fact=L.And(V['a'] == 0, V['v'] == V['X'][V['j'], V['i']]))]
+        return {'v': unchanged, 'v#2': after_v}
 
     def sym(self, L, X, n):
         return L.forall2((0, n), (0, n), lambda a, b: X[a, b] == X[b, a])
